@@ -94,7 +94,41 @@ def check_cases(cases: list[dict], rep: Report, known: dict) -> None:
                 rep.corr_break(f"battery evaluation differs from the model: {nc.detail}", nc.info)
 
 
+def spellings(rep: Report, seed: int, n: int) -> None:
+    """the same query with the variable written as an interned str, as an equal str built at run time,
+    and as a Variable object: one answer"""
+    import sys as _sys
+    from ..core import call, sm, X
+    from smoothmath import Point
+    for bc in battery.battery(seed, n)[: 200]:
+        names = list(bc["vars"])
+        if not names:
+            continue
+        p = Point(**{k: wire.raw_num(v) for k, v in bc["p"]})
+        mk = lambda: wire.build_raw(bc["e"])  # noqa: E731
+        x0 = names[0]
+        forms = {"interned str": _sys.intern(x0), "str built at run time": wire.fresh_str(x0), "Variable": X.Variable(x0),
+                 "Variable over a built str": X.Variable(wire.fresh_str(x0))}
+        outs = {}
+        for label, xv in forms.items():
+            outs[label] = [battery.fmt(call(lambda: sm.Partial(mk(), xv).at(p))),
+                           battery.fmt(call(lambda: sm.LocatedDifferential(mk(), p).component(xv))),
+                           battery.fmt(call(lambda: sm.Differential(mk()).component_at(xv, p))),
+                           battery.fmt(call(lambda: sm.Partial(mk(), xv).as_expression(), timeout=30)),
+                           battery.fmt(call(lambda: sm.Differential(mk(), compute_early=True).component(xv).as_expression(), timeout=30))]
+        rep.evaluations += 5 * len(forms)
+        ref = outs["interned str"]
+        for label, out in outs.items():
+            if out != ref and not any("!timeout" in (a, b) for a, b in zip(out, ref)):
+                j = next(i for i, (a, b) in enumerate(zip(out, ref)) if a != b)
+                rep.violation(f"the answer depends on how the variable is written: {ref[j][:160]} (interned str) vs {out[j][:160]} ({label})",
+                              {"e": bc["e"][:300], "variable": x0, "query": j})
+                break
+        rep.count("spellings", "agree" if all(o == ref for o in outs.values()) else "differ")
+
+
 def run(rep: Report, rng, tier: str, known: dict, search: bool = False) -> None:
+    spellings(rep, rng.randint(1, 10 ** 6), 120)
     check_cases(gen_cases(rng, tier), rep, known)
 
 
